@@ -52,6 +52,25 @@ def infoFor (hostname : Bytes) (hostport numplayers : Int) : Fields :=
           ("GameVersion", .str (Bytes.ofAscii "1.1")), ("GameType", .str (Bytes.ofAscii "VIP Escort")),
           ("NumPlayers", .int numplayers), ("MaxPlayers", .int 16), ("MapName", .str (Bytes.ofAscii "A-Bomb Nightclub"))]
 
+/-- `ucops.DetailsFor`: an odd player count comes with one player and one objective -/
+def playersFor (np : Int) : List Fields :=
+  if np % 2 = 0 then [] else
+  [Facts.detailsPlayerSchema.map fun (name, _, kind, _) =>
+    if name = "Name" then Val.str (Bytes.ofAscii "vip")
+    else if name = "Score" then Val.int np
+    else if name = "VIPEscapes" then Val.int 1
+    else if name = "VIPEscapes2" then Val.int 2
+    else if name = "VIPKillsValid" then Val.int 3
+    else if name = "VIPKillsInvalid" then Val.int 4
+    else if kind = 1 then Val.bool false else if kind = 2 then Val.str [] else Val.int 0]
+
+def objectivesFor (np : Int) : List Fields :=
+  if np % 2 = 0 then [] else
+  [Facts.detailsObjectiveSchema.map fun (name, _, kind, _) =>
+    if name = "Name" then Val.str (Bytes.ofAscii "obj")
+    else if name = "Status" then Val.int 1
+    else if kind = 1 then Val.bool false else if kind = 2 then Val.str [] else Val.int 0]
+
 def parseOutcome (s : String) : Option (Option ProbeResult) :=
   if s = "fail" then some none
   else match s.splitOn ":" with
@@ -59,7 +78,7 @@ def parseOutcome (s : String) : Option (Option ProbeResult) :=
       let qp ← qp.toInt?
       let hn ← Bytes.ofHex hn
       let np ← np.toInt?
-      pure (some ⟨⟨infoFor hn 10480 np, [], []⟩, qp⟩)
+      pure (some ⟨⟨infoFor hn 10480 np, playersFor np, objectivesFor np⟩, qp⟩)
     | _ => none
 
 /-- rendering of what `UC.proberRun` (`Model/UseCases/ProberRun.lean`: the prober runner — pop `n`, order the batch,
